@@ -2,6 +2,7 @@
 from __future__ import annotations
 
 import ast
+import re
 
 from ..model import const_value, dotted, kwarg, norm_text, walk_no_nested
 from ..pattern import Matcher
@@ -33,6 +34,42 @@ def run(ctx: Context) -> None:
     _infra.move_dimensions_exits(ctx, 'R18.4')
     from .common import adopt_foundations as _adopt
     _adopt(ctx, 'R18.7', ['geometry', 'order'], floor=60)
+    ctx.rule('R18.10', "the depth coordinate a transect plot pairs with a variable is the one whose dimensions the variable has: exactly one candidate, or a refusal", floor=3)
+    with ctx.section('R18.10'):
+        from .common import facts as _f1810
+        gd = ctx.func('emsarray.conventions._base.Convention.get_depth_coordinate_for_data_array')
+        gflow = ctx.flow(gd)
+        comps_ = [n for n in ast.walk(gd.node) if isinstance(n, (ast.ListComp, ast.GeneratorExp)) and len(n.generators) == 1
+                  and norm_text(n.generators[0].iter) == 'self.depth_coordinates']
+        ctx.need('R18.10', len(comps_) == 1, "the candidates are chosen among self.depth_coordinates", gd)
+        g_ = comps_[0].generators[0]
+        v_ = norm_text(g_.target)
+        filt_ = [norm_text(t) for t in g_.ifs]
+        da_ = None
+        for t in g_.ifs:
+            mm = re.fullmatch(rf"set\({re.escape(v_)}\.dims\) <= set\((\w+)\.dims\)", norm_text(t)) or re.fullmatch(rf"set\({re.escape(v_)}\.dims\)\.issubset\((\w+)\.dims\)", norm_text(t))
+            if mm:
+                da_ = mm.group(1)
+        ok = len(filt_) == 1 and da_ is not None and norm_text(comps_[0].elt) == v_ and da_ == gd.params[1]
+        ctx.check('R18.10', ok, "a candidate is a depth coordinate all of whose dimensions the variable has (a coordinate on fewer dimensions still fits, one with a foreign dimension does not)",
+                  gd, comps_[0], construct=f"filter: {filt_}")
+        rets_ = gd.returns()
+        ok_r = len(rets_) == 1
+        if ok_r:
+            fs_ = _f1810(ctx, gd, rets_[0], expand=True)
+            rv = gflow.resolve(rets_[0].value)
+            one = isinstance(rv, ast.Subscript) and const_value(rv.slice, None) == 0 and gflow.resolve(rv.value) is comps_[0]
+            none_refused = any(pol is False and re.fullmatch(r"len\(.+\) == 0", t) for t, pol in fs_) or any(pol and re.fullmatch(r"len\(.+\) (> 0|>= 1|!= 0)", t) for t, pol in fs_)
+            many_refused = any(pol is False and re.fullmatch(r"len\(.+\) (> 1|>= 2)", t) for t, pol in fs_) or any(pol and re.fullmatch(r"len\(.+\) (== 1|<= 1|< 2)", t) for t, pol in fs_)
+            ok_r = one and none_refused and many_refused
+        ctx.check('R18.10', ok_r, "the first candidate is returned only when it is the only one: no candidate and several candidates are refused", gd, rets_[0] if rets_ else gd.node,
+                  construct=f"return {norm_text(rets_[0].value) if rets_ else '?'}")
+        pl = ctx.func('emsarray.transect.plot')
+        pc = [c for c in calls_in(pl) if isinstance(c.func, ast.Attribute) and c.func.attr == 'get_depth_coordinate_for_data_array']
+        tc = [c for c in calls_in(pl) if (callee(ctx, pl, c) or '').endswith('transect.Transect')]
+        ok_p = len(pc) == 1 and len(tc) == 1 and kwarg(tc[0], 'depth') is not None and ctx.flow(pl).resolve(kwarg(tc[0], 'depth')) is pc[0]
+        ctx.check('R18.10', ok_p, "transect.plot builds the transect on the depth coordinate found for the plotted variable", pl, tc[0] if tc else pl.node,
+                  construct=f"Transect(..., depth={norm_text(kwarg(tc[0], 'depth')) if tc and kwarg(tc[0], 'depth') is not None else 'not given'})")
     ctx.rule('R18.9', "the piece of the path a cell is intersected with is the one it was handed: the whole path is substituted only where none was given", floor=0)
     with ctx.section('R18.9'):
         from . import infra as _infra189
@@ -328,6 +365,9 @@ from ..variants import V  # noqa: E402
 
 _T = 'src/emsarray/transect.py'
 VARIANTS = [
+    V('C18', 'depth-coordinate-proper-subset-only', 'src/emsarray/conventions/_base.py', "            if set(coordinate.dims) <= set(data_array.dims)", "            if set(coordinate.dims) < set(data_array.dims)", 'R18.10'),
+    V('C18', 'several-depth-coordinates-first-taken', 'src/emsarray/conventions/_base.py', "        if len(candidates) > 1:\n            raise ValueError(\n                f\"Multiple possible depth coordinates found for {name}: \"\n                \", \".join(repr(c.name) for c in candidates)\n            )\n", "", 'R18.10'),
+    V('C18', 'transect-plot-ignores-found-depth', 'src/emsarray/transect.py', "Transect(dataset, line, depth=depth_coordinate)", "Transect(dataset, line)", 'R18.10'),
     V('C18', 'transect-of-any-grid-kind', _T, "        if grid_kind != self.convention.default_grid_kind:\n            raise ValueError(", "        if grid_kind is None:\n            raise ValueError(", 'R18.4'),
     V('C18', 'shared-edge-counted-per-cell', _T, "            intersections = self._intersect_polygon(polygon, remaining)\n", "            intersections = self._intersect_polygon(polygon)\n", 'R18.1'),
     V('C18', 'remainder-never-cut', _T, "            remaining = remaining.difference(polygon)\n", "", 'R18.1'),
